@@ -22,6 +22,7 @@ import (
 //                | 5 *bufio.Reader (16-byte buffer) over a plain reader | 6 *bytes.Buffer
 //                | 7 iotest.DataErrReader | 8 iotest.HalfReader | 9 iotest.OneByteReader (plain streams
 //                  that deliver the last data together with io.EOF / short reads)
+//                | 10 ReadOrGenerateIndex(*bytes.Reader) | 11 ReadOrGenerateIndex(Read+Seek only)
 //   5 and 6 are non-seekable streams that ALSO implement io.ByteReader: ToByteReadSeeker still
 //   wraps them in the discarding wrapper (no Seek), so they must behave exactly like kind 2.
 
@@ -108,6 +109,21 @@ func runIdxGenImpl(c *Ctx, kind uint64, o gOpts, file []byte, codec uint64, qs [
 			obs = VL{VT("err"), VT("PANIC")}
 		}
 	}()
+	if kind >= 10 { // ReadOrGenerateIndex over a *bytes.Reader (10) or a Read+Seek-only source (11)
+		var rs io.ReadSeeker = bytes.NewReader(file)
+		if kind == 11 {
+			rs = seekOnly{bytes.NewReader(file)}
+		}
+		idx, err := carv2.ReadOrGenerateIndex(rs, append(o.v2(), carv2.UseIndexCodec(multicodec.Code(codec)))...)
+		if err != nil {
+			return VL{VT("err"), verr(err)}
+		}
+		raw, _, err := writeIndex(idx)
+		if err != nil {
+			return VL{VT("err"), VT("writeerr")}
+		}
+		return VL{VT("ok"), VN(uint64(len(raw))), getAllsVal(idx, qs, true)}
+	}
 	src, cleanup, errObs := c03Source(c, kind, o, file)
 	defer cleanup()
 	if errObs != nil {
